@@ -38,6 +38,19 @@ func CheckElem(t *testing.T, c ElemCase) error {
 	switch c.Elem {
 	case "empty":
 		return checkElemT(c, run, func(int) struct{} { return struct{}{} }, nil)
+	case "iface":
+		// interface values, every third of them nil (an element like any other)
+		return checkElemT(c, run, func(i int) any {
+			if i%3 == 1 {
+				return nil
+			}
+			return i
+		}, func(v any) int {
+			if v == nil {
+				return -1
+			}
+			return v.(int)
+		})
 	default:
 		return checkElemT(c, run, func(i int) wideElem { return wideElem{id: i} }, func(w wideElem) int { return w.id })
 	}
@@ -142,7 +155,7 @@ func checkElemT[T any](c ElemCase, run func(func()) bubble.Result, mk func(int) 
 		got += len(o)
 		if id != nil {
 			for _, v := range o {
-				if id(v) != next {
+				if got := id(v); got != next && !(got == -1 && next%3 == 1) {
 					return fmt.Errorf("element type %s: output slice #%d carries element %d where %d was expected", c.Elem, k, id(v), next)
 				}
 				next++
@@ -160,7 +173,7 @@ func GenElem(thorough bool) *rapid.Generator[ElemCase] {
 	return rapid.Custom(func(t *rapid.T) ElemCase {
 		c := ElemCase{
 			Kind:   pick(t, "kind", KindV1Join, KindV2Join, KindV2Unite),
-			Elem:   pick(t, "elem", "empty", "empty", "wide"),
+			Elem:   pick(t, "elem", "empty", "empty", "wide", "iface"),
 			J:      uint(pick(t, "J", 1, 2, 3, 5, 8, 1025)),
 			NoCopy: rapid.Bool().Draw(t, "nocopy"),
 			InCap:  pick(t, "cap", 0, 1, 4, 64),
